@@ -272,3 +272,39 @@ def dv_flags(env, symmetry):
             if got.shape != want.shape or not np.allclose(got, want, rtol=1e-12, atol=0):
                 wrong.append("%s = %s instead of %s" % (v, got.tolist(), want.tolist()))
         env.holds("C13", "with %s_dv switched off every other design variable starts from the dictionary's value" % off, not wrong, "; ".join(wrong[:4]))
+
+
+@job("c13.spline_anchors", ("C13", "C10", "C15"), cfgs=[dict(ny=3), dict(ny=5)])
+def spline_anchors(env, ny):
+    """every control-point distribution of the geometry and structural groups (twist, chord, shears, thickness-to-chord, tube
+    radius and thickness, wingbox skin and spar thickness) has its first control point at the tip and its last at the root -
+    normalised span 0 and 1 - whether it is evaluated at the nodes or at the panel mid-points; the distribution then does not
+    depend on the spanwise discretisation, and equal control points give the same distribution for every variable"""
+    import openmdao.api as om
+    import warnings
+    from ..surfaces import surface
+    from openaerostruct.geometry.geometry_group import Geometry
+    from openaerostruct.structures.tube_group import TubeGroup
+    from openaerostruct.structures.wingbox_group import WingboxGroup
+    cp = np.array([0.1, 0.2, 0.3])
+    st = surface(name="wing", nx=2, ny=ny, model="tube", extra=dict(twist_cp=cp, chord_cp=cp + 1, xshear_cp=cp, yshear_cp=cp, zshear_cp=cp,
+                                                                   t_over_c_cp=cp, thickness_cp=cp / 10, radius_cp=cp))
+    sw = surface(name="wing", nx=2, ny=ny, model="wingbox", extra=dict(spar_thickness_cp=cp / 10, skin_thickness_cp=cp / 10))
+    seen = 0
+    for label, build in (("Geometry", lambda m: m.add_subsystem("g", Geometry(surface=st))),
+                         ("TubeGroup", lambda m: m.add_subsystem("g", TubeGroup(surface=st))),
+                         ("WingboxGroup", lambda m: m.add_subsystem("g", WingboxGroup(surface=sw)))):
+        p = om.Problem(reports=False)
+        build(p.model)
+        with warnings.catch_warnings():
+            warnings.simplefilter("ignore")
+            p.setup()
+        for c in p.model.system_iter(recurse=True, typ=om.SplineComp):
+            x = np.asarray(c.options["x_interp_val"], dtype=float).reshape(-1)
+            o = dict(c.options["interp_options"] or {})
+            lo = float(o.get("x_cp_start", x[0]))
+            hi = float(o.get("x_cp_end", x[-1]))
+            seen += 1
+            env.holds("C13,C10,C15", "%s.%s: control points anchored at normalised span 0 and 1" % (label, c.name),
+                      abs(lo) <= 1e-12 and abs(hi - 1) <= 1e-12, "first control point at %.4g, last at %.4g (evaluation points %.4g .. %.4g)" % (lo, hi, x[0], x[-1]))
+    env.holds("C13", "the spline scan saw the distributions", seen >= 10, "%d spline components" % seen)
